@@ -10,7 +10,7 @@ import (
 func init() {
 	register(&Check{
 		ID: "C12", Level: "exploration", QuickSecs: 100, ThoroughSecs: 1200,
-		Rule:        "grammars without blocks (2 generation flag sets; 4, adding -optimize-basic-latin, for grammars with classes) over terminals {'a',\"ab\",\"b\"i,[ab],[^a],.,\"\"} with !/& nesting up to depth 3, seq/choice, two-rune literals failing on the second rune, terminals starting at the same offset on different paths (N<=5 quick, 6 thorough); all inputs over {a,b,\\n,é} up to L=3 (4); for every NON-matching input the complete error (position line:col (offset) of the farthest failure and the sorted, de-duplicated expected list with !-prefixed entries and EOF last) is compared with the one derived from the reference interpreter's terminal-attempt list. Non-trivial = expected list has >= 2 entries or an inverted entry.",
+		Rule:        "grammars without blocks; a terminal spelling family (20 terminals: literals of every quoting / escape form / i, classes with ranges, ^, i, escapes, Unicode classes, non-ASCII, the empty and the inverted empty class; alone, under !, in a choice, in a loop before !.); (2 generation flag sets; 4, adding -optimize-basic-latin, for grammars with classes) over terminals {'a',\"ab\",\"b\"i,[ab],[^a],.,\"\"} with !/& nesting up to depth 3, seq/choice, two-rune literals failing on the second rune, terminals starting at the same offset on different paths (N<=5 quick, 6 thorough); all inputs over {a,b,\\n,é} up to L=3 (4); for every NON-matching input the complete error (position line:col (offset) of the farthest failure and the sorted, de-duplicated expected list with !-prefixed entries and EOF last) is compared with the one derived from the reference interpreter's terminal-attempt list. Non-trivial = expected list has >= 2 entries or an inverted entry.",
 		Assumptions: []string{"E1 loader", "reference failure tracking: failures under even predicate polarity, matches under odd polarity"},
 		Run:         runC12,
 	})
@@ -56,6 +56,44 @@ func runC12(c *ShardCtx) {
 				f.gens = gens4 // classes have a second matching path under -optimize-basic-latin
 			}
 			runGrammar(c, g, &f)
+		}
+	}
+	// terminal spelling family: how each terminal is NAMED in the expected list - literals of every
+	// quoting / escape form / i (named by their quoted value), classes named by their source text
+	// (ranges, ^, i, escapes, Unicode classes, non-ASCII), alone, under ! and next to another terminal
+	{
+		src := func(e *peg.Expr, s string) *peg.Expr { e.Src = s; return e }
+		terms := []func() *peg.Expr{
+			func() *peg.Expr { return src(peg.Lit("a"), "'a'") }, func() *peg.Expr { return src(peg.Lit("ab"), "`ab`") }, func() *peg.Expr { return src(peg.Lit("a"), `"\x61"`) },
+			func() *peg.Expr { return src(peg.Lit("é"), `"\u00e9"`) }, func() *peg.Expr { return peg.Lit("\"q") }, func() *peg.Expr { return peg.Lit("\n\t\\") }, func() *peg.Expr { return peg.LitI("É") },
+			func() *peg.Expr { return src(peg.LitI("A"), "'A'i") }, func() *peg.Expr { return src(peg.Lit("`"), "\"`\"") },
+			func() *peg.Expr { return peg.Cls(false, false, "a-c") }, func() *peg.Expr { return peg.Cls(true, true, "a-c") }, func() *peg.Expr { return peg.Cls(false, false, "\n", "\t") },
+			func() *peg.Expr { return peg.Cls(false, false, `\pL`) }, func() *peg.Expr { return peg.Cls(false, false, `\p{Nd}`, "x") }, func() *peg.Expr { return peg.Cls(false, false, "]") },
+			func() *peg.Expr { return peg.Cls(false, false, "é-ü") }, func() *peg.Expr { return src(peg.Cls(false, false, "é"), `[\u00e9]`) }, func() *peg.Expr { return src(peg.Cls(false, false, "A-C"), `[\x41-\x43]`) },
+			func() *peg.Expr { return peg.Cls(true, false) }, func() *peg.Expr { return peg.Cls(false, false) },
+		}
+		famT := *fam
+		famT.gens = gens4
+		famT.inputs = [][]byte{{}, []byte("z"), []byte("\n"), []byte("a"), []byte("é"), []byte("az"), []byte("B")}
+		for _, t := range terms {
+			for shape := 0; shape < 4; shape++ {
+				idx++
+				if !c.Mine(idx) {
+					continue
+				}
+				var body *peg.Expr
+				switch shape {
+				case 0:
+					body = t()
+				case 1:
+					body = peg.Seq(peg.Not(t()), peg.Lit("q"))
+				case 2:
+					body = peg.Choice(peg.Seq(t(), peg.Lit("#")), peg.Lit("q"), t())
+				case 3:
+					body = peg.Seq(peg.Star(t()), peg.Not(peg.Any()))
+				}
+				runGrammar(c, &peg.Grammar{Rules: []*peg.Rule{{Name: "S", Expr: body}}}, &famT)
+			}
 		}
 	}
 	// second family: two rules with display name, deeper predicate nesting
